@@ -125,14 +125,14 @@ func init() {
 			// the public API: static labels and a logger given to one f1 instance in either order, a real command
 			// line, the process-wide registry (one fresh process per case: that registry is built once)
 			for i := 0; i < 10; i++ {
-			if i >= 8 {
-				// a program that times a stage per endpoint (dozens of names) and whose first failures come late
-				cse := core.MkCase("C16", "cli", i, seed, map[string]int{"order": i % 2, "stages": 60 + 15*(i-8)})
-				cse.Solo = true
-				cse.TimeoutMS = 60000
-				cs = append(cs, cse)
-				continue
-			}
+				if i >= 8 {
+					// a program that times a stage per endpoint (dozens of names) and whose first failures come late
+					cse := core.MkCase("C16", "cli", i, seed, map[string]int{"order": i % 2, "stages": 60 + 15*(i-8)})
+					cse.Solo = true
+					cse.TimeoutMS = 60000
+					cs = append(cs, cse)
+					continue
+				}
 				// from the fifth on: no push gateway (the setup series is still recorded and labelled), or the program looks at
 				// the metrics (pkg/f1/metrics GetMetrics) before its first command line
 				cse := core.MkCase("C16", "cli", i, seed, map[string]int{"order": i % 2, "fail": i / 2 % 2, "nogw": []int{0, 0, 0, 0, 1, 1, 0, 1}[i], "early": []int{0, 0, 0, 0, 0, 0, 1, 1}[i]})
